@@ -13,7 +13,7 @@ for l in open('/verif/properties.jsonl'):
 print(' '.join(out))
 PY
 )
-tag=$(basename $(dirname $d))_$(basename $d .diff)
+tag=$(basename $d .diff)
 for pid in $pids; do
   out=/var/tmp/kyupy-verif-out/benign_${tag}_$pid; mkdir -p $out
   (cd /verif && KYUPY_REPO=$wt VERIF_OUT=$out ./check $pid --tier quick > $out/log.txt 2>&1); rc=$?
